@@ -317,3 +317,30 @@ void h_getopt_array_leaf(void)
 	CHECK("C11", cfg_getopt_array_top(NULL, 0, in_path) == NULL && cfg_getopt_array_top(ga_root, 0, NULL) == NULL, "NULL arguments: not found");
 	CANARY("getopt_array_leaf");
 }
+
+/* contract::cfg_set_validate_func / cfg_set_validate_func2 (C14): the path is resolved by the schema-level resolver with
+ * the context's own declarations and flags; the callback is installed on the option it yields and the previous one is
+ * returned; an unresolved path installs nothing */
+extern int g_ga_calls; extern cfg_opt_t *g_ga_opts; extern int g_ga_flags; extern const char *g_ga_name; extern cfg_opt_t *g_ga_result;
+static int v1(cfg_t *c, cfg_opt_t *o) { (void)c; (void)o; return 0; }
+static int v2(cfg_t *c, cfg_opt_t *o, void *v) { (void)c; (void)o; (void)v; return 0; }
+void h_set_validate(void)
+{
+	cfg_t cfg; cfg_opt_t opts[2], target; _Bool found = nondet_bool(); static const char path[] = "s|b";
+	memset(&cfg, 0, sizeof cfg); memset(opts, 0, sizeof opts); memset(&target, 0, sizeof target);
+	cfg.opts = opts; cfg.flags = nondet_int();
+	target.validcb = nondet_bool() ? v1 : NULL;
+	g_ga_result = found ? &target : NULL; g_ga_calls = 0;
+	{
+		cfg_validate_callback_t old = target.validcb, r = cfg_set_validate_func(&cfg, path, v1);
+		CHECK("C14", g_ga_calls == 1 && g_ga_opts == opts && g_ga_flags == cfg.flags && g_ga_name == path, "a registration path is resolved against the context's own declarations and case rule");
+		if (found) CHECK("C14", r == old && target.validcb == v1, "registering by path installs the validation callback on the resolved option and returns the previous one");
+		else CHECK("C14", r == NULL && target.validcb == old, "an unresolved registration path installs nothing");
+	}
+	{
+		cfg_validate_callback2_t r2 = cfg_set_validate_func2(&cfg, path, v2);
+		if (found) CHECK("C14", r2 == NULL && target.validcb2 == v2, "the pre-set validation callback is installed the same way");
+		else CHECK("C14", r2 == NULL && target.validcb2 == NULL, "an unresolved registration path installs no pre-set callback");
+	}
+	CANARY("set_validate");
+}
